@@ -90,7 +90,12 @@ func (pc *PubkeyCache) ValidatorIndex(pubkey BLSPubkey) (index ValidatorIndex, o
 func (pc *PubkeyCache) unsafeValidatorIndex(pubkey BLSPubkey) (index ValidatorIndex, ok bool) {
 	index, ok = pc.pub2idx[pubkey]
 	if !ok && pc.parent != nil {
-		return pc.parent.ValidatorIndex(pubkey)
+		index, ok = pc.parent.ValidatorIndex(pubkey)
+		// Only the part of the parent below the fork point is shared history;
+		// anything the parent knows at or after it belongs to a sibling deposit log.
+		if ok && index >= pc.trustedParentCount {
+			return 0, false
+		}
 	}
 	return index, ok
 }
